@@ -231,4 +231,37 @@ example : rlpDecodeList [0xc4, 0x83, 0x64, 0x6f, 0x67] = .ok [[0x83, 0x64, 0x6f,
 example : specDecodeString [0xb8, 0x01, 0x61] = none ∧ rlpDecodeString [0xb8, 0x01, 0x61] = .err .nonCanonical := by
   decide
 
+/-! ## Deep version: recursive decoding of nested items with the model's wrappers
+
+`decodeItem fuel inp` (Verif.Proofs.RlpExact) applies `rlpDecodeString`, else `rlpDecodeList` and then
+itself to every returned frame; `encode : Item → Bytes` is the reference encoder of the spec. -/
+
+/-- Every canonical encoding of a nested item that fits a Go slice decodes back to the item
+    (fuel = input length suffices: every nested frame is shorter than its enclosing input). -/
+theorem deep_roundtrip (it : Item) (fuel : Nat) (hfuel : (encode it).length ≤ fuel)
+    (hmax : (encode it).length ≤ maxLongLength) : decodeItem fuel (encode it) = some it :=
+  decodeItem_roundtrip fuel it hfuel hmax
+
+/-- `[ "dog", 5, [] ]` -/
+example : encode (.list [.str [0x64, 0x6f, 0x67], .str [5], .list []]) =
+    [0xc6, 0x83, 0x64, 0x6f, 0x67, 0x05, 0xc0] := by decide
+example : decodeItem 7 (encode (.list [.str [0x64, 0x6f, 0x67], .str [5], .list []])) =
+    some (.list [.str [0x64, 0x6f, 0x67], .str [5], .list []]) :=
+  deep_roundtrip _ 7 (by decide) (by decide)
+set_option maxRecDepth 8000 in
+example : decodeItem 7 [0xc6, 0x83, 0x64, 0x6f, 0x67, 0x05, 0xc0] =
+    some (.list [.str [0x64, 0x6f, 0x67], .str [5], .list []]) := by rfl
+
+/-- Whatever the recursive decoder accepts is the canonical encoding of the item it returns — at
+    every nesting level (no fuel or size hypothesis). -/
+theorem deep_exact (fuel : Nat) (inp : Bytes) (it : Item) (h : decodeItem fuel inp = some it) :
+    inp = encode it :=
+  decodeItem_exact fuel inp it h
+
+/-- a nested non-canonical item (`81 05` inside a list) is rejected by the deep decoder although the
+    shallow `rlpDecodeList` returns it as a frame -/
+example : rlpDecodeList [0xc2, 0x81, 0x05] = .ok [[0x81, 0x05]] := by decide
+set_option maxRecDepth 8000 in
+example : decodeItem 3 [0xc2, 0x81, 0x05] = none := by rfl
+
 end Verif.Properties.C46
